@@ -239,6 +239,9 @@ def run(ctx, out, tier):
         _detect_once(ctx, out, _dv, rule="C20.detect")
     else:
         out.inst("C20.detect", 0, 4)
+    # the set of files the walk yields does not depend on the start directory (shared with C12 / C15)
+    from rules.C12 import check_walkfiles
+    check_walkfiles(ctx, out, rule="C20.walkfiles")
     return meta()
 
 
